@@ -451,7 +451,7 @@ def run(tier: str, seed: int) -> int:
     props = C.coq_gate(chk)
     C.use_repo()
     rng = chk.rng
-    n_stories, n_hist, n_ops, n_graphviz = (110, 3, 10, 6) if tier == "quick" else (900, 5, 24, 40)
+    n_stories, n_hist, n_ops, n_graphviz = (300, 3, 10, 8) if tier == "quick" else (2000, 5, 24, 40)
     stats = {"compile_failed": 0, "unsupported": 0, "hops": 0, "jump_hops": 0, "offers": 0, "join_choices": 0,
              "join_flagged": 0, "edited": 0, "crafted": 0, "inert_positions": 0, "kinds_seen": {}, "gen": {},
              "edges_by_kind": {}, "nested_sites": 0, "graphviz_runs": 0}
